@@ -16,16 +16,17 @@
     * `engine_protocol` (+ `mkEdit_invariant`, `mkEdit_initial_bounds`): the FULL statement for `from.edits(to)`
       without MultiSetEdit — `f.noDict`, distinct keys, `t.fkOK` (the domain on which FixedKeyDictNodeEdit's static
       upper bound `from.total_size + to.total_size + 1` holds; outside it the statement is FALSE: finding D24).
-    * `engine_protocol_no_multiset`: UNCONDITIONAL for every machine without MultiSetEdit: leaves, key/value pairs,
-      string edits, positional list edits, fixed-key dictionaries (EditCollection, dict strategy `none`) AND
-      EditDistance (list alignment, string edit distance) at any nesting — `Protocol (mkOps q F n) (G noAtoms F n)`
-      where the invariant `(G noAtoms F n).I` = `invG` is the structural one (per EditDistance: `EdInv`, per
-      EditCollection: `CollInv`, nesting height ≤ n, loop bound μ < F).
-    * `engine_protocol_partial`: the same over arbitrary atoms (`ms` = MultiSetEdit + matcher), PROVIDED the atoms
-      obey the protocol whenever their children do (`AtomHyp`).  Missing conjunct: `matcher_protocol` /
-      `multiset_protocol` (= `AtomHyp` for `ms`).
+    * `engine_protocol_every_machine`: UNCONDITIONAL for EVERY machine of the engine — leaves, key/value pairs,
+      string edits, positional list edits, fixed-key dictionaries (EditCollection), EditDistance (list alignment,
+      string edit distance) AND MultiSetEdit with its WeightedBipartiteMatcher, at any nesting, for every
+      `make_distinct` oracle and every admissible solver answer — `Protocol (mkOps q F n) (G noAtoms F n)`, where the
+      invariant `(G noAtoms F n).I` = `invG` is the structural one (per EditDistance: `EdInv`, per EditCollection:
+      `CollInv`, per MultiSetEdit: `MsInv`/`WmInv`, nesting height ≤ n, loop bounds < F).  No class is left abstract
+      (`isAtom` is constantly false; `AtomHyp` survives only as a trivially true parameter of the induction).
+      Missing for DictNode documents: that `mkMs` (the fresh MultiSetEdit of `mkEdit`) satisfies `MsInv`, i.e. the
+      solver oracle's admissibility `AssignOK` for the recorded answers (size `min(nf, nt)`), see NOTES_C04.
     * per class: `const`/`kvp`/`str` (inside `engine_step`), `fixedLen_protocol`, `repeat_until_tightened_terminates`,
-      `editCollection_protocol` (bounds never invalid and never an ill-formed Range, the `while True` loop of
+      `matcher_protocol`, `multiset_protocol` (see below), `editCollection_protocol` (bounds never invalid and never an ill-formed Range, the `while True` loop of
       `tighten_bounds` terminates, True ⇒ strictly inside the starting bounds, False ⇒ single value),
       `editDistance_protocol` (generic in the cells' ghost: `bounds()` / `tighten_bounds()` / `edits()` succeed, never
       read the freed matrix, never index outside it, keep the invariant `EdInv`, the interval contains the greedy
@@ -41,6 +42,7 @@
 import GtModel.Proofs.LazyRun
 import GtModel.Proofs.LazyEdStatic
 import GtModel.Proofs.LazyMkC
+import GtModel.Proofs.LazyMsC
 
 namespace GtModel.C04
 open GtModel.Lazy
@@ -81,12 +83,12 @@ theorem repeat_until_tightened_terminates {rec : Ops} {g : Ghost} (h : Protocol 
 
 /-- every machine over protocol-abiding atoms (MultiSetEdit) obeys the protocol (`engine_protocol` with the atom
     class as hypothesis) -/
-theorem engine_protocol_partial (q : Bool) (F : Nat) (hF : 0 < F) (a : Ghost) (hA : AtomHyp q F a) (n : Nat) :
+theorem engine_protocol_of_hyp (q : Bool) (F : Nat) (hF : 0 < F) (a : Ghost) (hA : AtomHyp q F a) (n : Nat) :
     Protocol (mkOps q F n) (G a F n) :=
   engine_protocol_of_atoms q F hF a hA n
 
-/-- unconditional: every machine without MultiSetEdit (const, kvp, str, fixed, coll, ed) -/
-theorem engine_protocol_no_multiset (q : Bool) (F : Nat) (hF : 0 < F) (n : Nat) :
+/-- unconditional: EVERY machine (const, kvp, str, fixed, coll, ed, ms) satisfying the structural invariant -/
+theorem engine_protocol_every_machine (q : Bool) (F : Nat) (hF : 0 < F) (n : Nat) :
     Protocol (mkOps q F n) (G noAtoms F n) :=
   engine_protocol_of_atoms q F hF noAtoms (noAtoms_hyp q F) n
 
@@ -142,6 +144,67 @@ theorem editDistance_final_is_greedy (s : EdSt) (fm : List (List Nat)) :
     edFinOf s fm = (EditMatrix.solve s.rem s.ins fm).1 :=
   edFin_eq_solve s fm
 
+/-- per class: WeightedBipartiteMatcher (with `make_distinct` and the assignment solver as ORACLES), generic in the
+    edges' ghost `g`.  `WmInv`: the edge matrix is `nf × nt`; the solver's answer `w.assign` is admissible
+    (`AssignOK`: in range, ordered by from-index, injective, of size `min nf nt`); the chosen matching, if any, is that
+    answer; the `_bounds` memo, if set, is the single final value and then every matched edge is definitive.
+    For EVERY `make_distinct` oracle (`w.mdCounts` arbitrary):
+    * the exposed interval `wmViewV` contains the matcher's final value (Σ final costs of the matched edges);
+    * `bounds()` succeeds (no `min()`/`max()` of an empty row, no ill-formed Range), returns `wmViewV`, changes no edge
+      interval;
+    * forcing the matching succeeds (the oracle checks pass) and only shrinks the interval;
+    * `tighten_bounds()` — `repeat_until_tightened` around "make distinct / choose the matching / tighten the first
+      matched edge that can" — TERMINATES within `wmFlags + Σ μ(edges) + 1` iterations, never widens, returns True
+      only with a changed interval and False only on a single value (and then it only read the edges). -/
+theorem matcher_protocol {rec : Ops} {g : Ghost} (h : Protocol rec g) (n : Nat) (w : WmSt) (edges : List (List M))
+    (inv : WmInv g w edges) (hn : wmFlags w + muLLg g edges < n) :
+    ((wmViewV w (viewM g edges)).lo ≤ wmFin g w edges ∧ wmFin g w edges ≤ (wmViewV w (viewM g edges)).hi) ∧
+    (∃ w' e', wmBounds rec w edges = .ok (w', e', wmViewV w (viewM g edges)) ∧ PresLL g edges e' ∧ WmInv g w' e' ∧
+      wmViewV w' (viewM g e') = wmViewV w (viewM g edges)) ∧
+    (∃ w' e', wmMatching rec w edges = .ok (w', e') ∧ KeepsLL g edges e' ∧ WmInv g w' e' ∧
+      w'.mtch = some w.assign ∧
+      (wmViewV w (viewM g edges)).lo ≤ (wmViewV w' (viewM g e')).lo ∧
+      (wmViewV w' (viewM g e')).hi ≤ (wmViewV w (viewM g edges)).hi) ∧
+    (∃ w' e' r, wmTighten rec n w edges = .ok (w', e', r) ∧ KeepsLL g edges e' ∧ WmInv g w' e' ∧
+      (wmViewV w (viewM g edges)).lo ≤ (wmViewV w' (viewM g e')).lo ∧
+      (wmViewV w' (viewM g e')).hi ≤ (wmViewV w (viewM g edges)).hi ∧
+      wmFlags w' + muLLg g e' ≤ wmFlags w + muLLg g edges ∧
+      (r = true → wmViewV w' (viewM g e') ≠ wmViewV w (viewM g edges)) ∧
+      (r = false → (wmViewV w (viewM g edges)).lo = (wmViewV w (viewM g edges)).hi ∧ PresLL g edges e')) := by
+  obtain ⟨w1, e1, hb, pp, inv1, _, hv⟩ := wmBounds_ok h inv
+  obtain ⟨w2, e2, hm, k2, inv2, _, _, _, m4, _, v1, v2, _, _⟩ := wmMatching_ok h inv
+  obtain ⟨w3, e3, r, ht, k3, inv3, _, _, _, s1, s2, fl, hr1, hr0, _⟩ := wmTighten_ok h n inv hn
+  exact ⟨wmView_wf h inv, ⟨w1, e1, hb, pp, inv1, hv⟩, ⟨w2, e2, hm, k2, inv2, m4, v1, v2⟩,
+    ⟨w3, e3, r, ht, k3, inv3, s1, s2, fl, hr1, fun hr => ⟨(hr0 hr).1, (hr0 hr).2.1⟩⟩⟩
+
+/-- per class: MultiSetEdit over its matcher and its auto-matched key/value edits, generic in the children's ghost.
+    `MsInv`: the matcher invariant, and as many removal / insertion costs as unmatched from- / to-nodes.
+    * `msViewOf` (matcher interval + Σ key/value intervals + the interval of the left-over removals/insertions: the
+      k smallest … k largest costs before the matching is known, their exact sum afterwards) contains the final cost;
+    * `bounds()` succeeds, returns it, settles the key/value edits, changes nothing observable;
+    * `tighten_bounds()` succeeds, never widens, strictly decreases `msBase + width` on True, returns False only on a
+      single value, and True after an observation (`Q` of the key/value edits) only with a changed interval. -/
+theorem multiset_protocol {rec : Ops} {g : Ghost} (h : Protocol rec g) (n : Nat) (l : Lbl) (s : MsSt) (kvps : List M)
+    (w : WmSt) (edges : List (List M)) (inv : MsInv g s kvps w edges) (hn : wmFlags w + muLLg g edges < n) :
+    ((msViewOf g s kvps w edges).lo ≤ msFinOf g s kvps w edges ∧
+      msFinOf g s kvps w edges ≤ (msViewOf g s kvps w edges).hi) ∧
+    (∃ kvps' w' e', msBounds rec l s kvps w edges = .ok (.ms l s kvps' w' e', msViewOf g s kvps w edges) ∧
+      PresL g kvps kvps' ∧ PresLL g edges e' ∧ MsInv g s kvps' w' e' ∧
+      msViewOf g s kvps' w' e' = msViewOf g s kvps w edges ∧ (∀ m ∈ kvps', g.Q m)) ∧
+    (∃ kvps' w' e' r, msTighten rec n l s kvps w edges = .ok (.ms l s kvps' w' e', r) ∧ KeepsL g kvps kvps' ∧
+      KeepsLL g edges e' ∧ MsInv g s kvps' w' e' ∧
+      (msViewOf g s kvps w edges).lo ≤ (msViewOf g s kvps' w' e').lo ∧
+      (msViewOf g s kvps' w' e').hi ≤ (msViewOf g s kvps w edges).hi ∧
+      msBase g kvps' w' e' ≤ msBase g kvps w edges ∧
+      (r = true → msBase g kvps' w' e' < msBase g kvps w edges ∨
+        (msViewOf g s kvps w edges).lo < (msViewOf g s kvps' w' e').lo ∨
+        (msViewOf g s kvps' w' e').hi < (msViewOf g s kvps w edges).hi) ∧
+      (r = false → (msViewOf g s kvps' w' e').lo = (msViewOf g s kvps' w' e').hi) ∧
+      ((∀ m ∈ kvps, g.Q m) → r = true → msViewOf g s kvps' w' e' ≠ msViewOf g s kvps w edges)) := by
+  obtain ⟨k1, w1, e1, hb, pk, pp, inv1, _, hv, q, _⟩ := msBounds_ok h l inv
+  obtain ⟨k2, w2, e2, r, ht, kk, ke, inv2, _, _, _, v1, v2, b, _, hd, hs, hq⟩ := msTighten_ok h n l inv hn
+  exact ⟨msView_wf h inv, ⟨k1, w1, e1, hb, pk, pp, inv1, hv, q⟩, ⟨k2, w2, e2, r, ht, kk, ke, inv2, v1, v2, b, hd, hs, hq⟩⟩
+
 /-! ### the fresh machine of `from.edits(to)` -/
 
 /-- `mkEdit o orc [] [] f t` SATISFIES the structural invariant, on the fragment without MultiSetEdit:
@@ -170,7 +233,7 @@ theorem engine_protocol (q : Bool) (o : Opts) (orc : Orc) (f t : Tree) (hf : f.n
     (hkt : t.KeysDistinct) (ht : t.fkOK = true) :
     ∃ F n, Protocol (mkOps q F n) (G noAtoms F n) ∧ (G noAtoms F n).I (mkEdit o orc [] [] f t) :=
   ⟨muG noAtoms (mkEdit o orc [] [] f t) + 1, height (mkEdit o orc [] [] f t),
-    engine_protocol_no_multiset q _ (Nat.succ_pos _) _,
+    engine_protocol_every_machine q _ (Nat.succ_pos _) _,
     mkEdit_invariant o orc f t hf hkf hkt ht _ _ (Nat.lt_succ_self _) (Nat.le_refl _)⟩
 
 section Observed
@@ -246,7 +309,7 @@ example : (G noAtoms 9 3).I exampleMachine := by
 
 example : ∃ m', full (mkOps true 9 3) ((G noAtoms 9 3).μ exampleMachine + 1) exampleMachine = .ok m' ∧
     (G noAtoms 9 3).view m' = Iv.point 4 := by
-  obtain ⟨m', e, _, hv⟩ := converges (engine_protocol_no_multiset true 9 (by omega) 3) exampleMachine
+  obtain ⟨m', e, _, hv⟩ := converges (engine_protocol_every_machine true 9 (by omega) 3) exampleMachine
     (by simp [exampleMachine, G, invG, invL, height, heightL])
   exact ⟨m', e, by rw [hv]; simp [exampleMachine, G, finG, finL, tailCost, GtModel.mkInsert, Script.cost]⟩
 
